@@ -27,7 +27,8 @@ func NewDropFieldsFilter(fieldUrns ...string) DropFieldsFilter {
 func (a DropFieldsFilter) Filter(ctx context.Context, result Result) (Result, error) {
 	// We need to verify that fields to drop exist and that the remaining result is not empty
 	fieldsMeta := result.FieldsMeta()
-	fieldIdxToKeep := make([]int, 0, len(fieldsMeta)-len(a.fieldUrnsSetToRemove))
+	// The capacity is only a hint, there may be more urns to remove than fields (reported as missing fields below)
+	fieldIdxToKeep := make([]int, 0, max(0, len(fieldsMeta)-len(a.fieldUrnsSetToRemove)))
 	countFoundToDrop := 0
 	for i, fieldMeta := range fieldsMeta {
 		if !a.fieldUrnsSetToRemove[fieldMeta.Urn()] {
